@@ -43,10 +43,19 @@ pub struct TransferCase {
     /// (0 plain, 1 io Interrupted, 2 FrameError::Io(Interrupted), 3 io TimedOut)
     #[serde(default)]
     pub bus_error_at: Option<(usize, u8)>,
+    /// the state query that concludes attempt number k (0-based) is answered "still receiving" (the matching
+    /// in-progress state) instead of received / failed; the documented controller treats that as a protocol error
+    #[serde(default)]
+    pub in_progress_at: Option<usize>,
+    /// in sequences: how this operation's page list relates to the previous one's (which it copies): 0/1 = as is,
+    /// 2 = last page has other content, 3 = one more page appended
+    #[serde(default)]
+    pub relation: u8,
 }
 
 struct Recorder {
     own: u16,
+    in_progress_at: Option<usize>,
     bus_error_at: Option<(usize, u8)>,
     errored: bool,
     hello_state: Option<u8>,
@@ -111,9 +120,14 @@ impl SignBus for Recorder {
             }
             M::Query(_) if after_count => {
                 let ok = self.verdicts.get(self.attempt).copied().unwrap_or(true);
+                let still_receiving = self.in_progress_at == Some(self.attempt);
                 self.attempt += 1;
                 let (succ, failed) = if self.last_transfer_op == O_RECEIVE_CONFIG { (S_CONFIG_RECEIVED, S_CONFIG_FAILED) } else { (S_PIXELS_RECEIVED, S_PIXELS_FAILED) };
-                Some(M::Report(self.own, if ok { succ } else { failed }))
+                if still_receiving {
+                    Some(M::Report(self.own, if self.last_transfer_op == O_RECEIVE_CONFIG { S_CONFIG_IN_PROGRESS } else { S_PIXELS_IN_PROGRESS }))
+                } else {
+                    Some(M::Report(self.own, if ok { succ } else { failed }))
+                }
             }
             M::Query(_) => Some(M::Report(self.own, S_PAGE_LOADED)),
             _ => None,
@@ -131,14 +145,29 @@ fn page_dims(chunks: u16) -> (u32, u32) {
 fn items_of(c: &TransferCase) -> Vec<Vec<u8>> {
     match &c.pages {
         None => vec![BLOCKS[c.sign_type as usize % 11].to_vec()],
-        Some(sizes) => sizes
-            .iter()
-            .enumerate()
-            .map(|(p, &chunks)| {
-                let p = if c.dup_pages { 0 } else { p as u64 };
-                (0..(chunks.max(1) as usize) * 16).map(|i| h64(&(c.seed, p, i as u64)) as u8).collect()
-            })
-            .collect(),
+        Some(sizes) => {
+            let mut items: Vec<Vec<u8>> = sizes
+                .iter()
+                .enumerate()
+                .map(|(p, &chunks)| {
+                    let p = if c.dup_pages { 0 } else { p as u64 };
+                    (0..(chunks.max(1) as usize) * 16).map(|i| h64(&(c.seed, p, i as u64)) as u8).collect()
+                })
+                .collect();
+            match c.relation {
+                2 => {
+                    if let Some(last) = items.last_mut() {
+                        // same id byte, other content
+                        for (i, b) in last.iter_mut().enumerate().skip(1) {
+                            *b ^= 0x5A ^ i as u8;
+                        }
+                    }
+                }
+                3 => items.push((0..32).map(|i| h64(&(c.seed, "extra", i as u64)) as u8).collect()),
+                _ => {}
+            }
+            items
+        }
     }
 }
 
@@ -147,12 +176,11 @@ fn run_op(sign: &Sign, c: &TransferCase, items: &[Vec<u8>]) -> Result<Result<(),
     match &c.pages {
         None if c.if_needed_hello.is_some() => catch(|| sign.configure_if_needed().map(|_| ()).map_err(|e| format!("{e:?}"))),
         None => catch(|| sign.configure().map(|_| ()).map_err(|e| format!("{e:?}"))),
-        Some(sizes) => {
-            let pages: Vec<Page<'_>> = sizes
+        Some(_) => {
+            let pages: Vec<Page<'_>> = items
                 .iter()
-                .zip(items.iter())
-                .map(|(&chunks, bytes)| {
-                    let (w, h) = page_dims(chunks.max(1));
+                .map(|bytes| {
+                    let (w, h) = page_dims(((bytes.len() / 16) as u16).max(1));
                     Page::from_bytes(w, h, &bytes[..]).expect("harness builds pages of the padded size")
                 })
                 .collect();
@@ -164,7 +192,7 @@ fn run_op(sign: &Sign, c: &TransferCase, items: &[Vec<u8>]) -> Result<Result<(),
 
 pub fn check_transfer(c: &TransferCase, st: &mut Stats) -> Result<(), String> {
     let (sign_type, _, _, _, _) = TYPES[c.sign_type as usize % 11];
-    let rec = Rc::new(RefCell::new(Recorder { own: c.addr, bus_error_at: c.bus_error_at, errored: false, hello_state: c.if_needed_hello, hellos: 0, bad_ack: c.bad_ack, transfer_requests: 0, verdicts: c.verdicts.clone(), attempt: 0, log: vec![], last_transfer_op: 0 }));
+    let rec = Rc::new(RefCell::new(Recorder { own: c.addr, in_progress_at: c.in_progress_at, bus_error_at: c.bus_error_at, errored: false, hello_state: c.if_needed_hello, hellos: 0, bad_ack: c.bad_ack, transfer_requests: 0, verdicts: c.verdicts.clone(), attempt: 0, log: vec![], last_transfer_op: 0 }));
     let sign = Sign::new(rec.clone(), Address(c.addr), sign_type);
     let items = items_of(c);
     let total_chunks: usize = items.iter().map(|i| (i.len() + 15) / 16).sum();
@@ -192,7 +220,7 @@ pub fn check_transfer_seq(c: &TransferSeq, st: &mut Stats) -> Result<(), String>
     let first = &c.ops[0];
     let (sign_type, _, _, _, _) = TYPES[first.sign_type as usize % 11];
     let verdicts: Vec<bool> = c.ops.iter().flat_map(|o| o.verdicts.iter().copied()).collect();
-    let rec = Rc::new(RefCell::new(Recorder { own: first.addr, bus_error_at: None, errored: false, hello_state: None, hellos: 0, bad_ack: None, transfer_requests: 0, verdicts, attempt: 0, log: vec![], last_transfer_op: 0 }));
+    let rec = Rc::new(RefCell::new(Recorder { own: first.addr, in_progress_at: None, bus_error_at: None, errored: false, hello_state: None, hellos: 0, bad_ack: None, transfer_requests: 0, verdicts, attempt: 0, log: vec![], last_transfer_op: 0 }));
     let sign = Sign::new(rec.clone(), Address(first.addr), sign_type);
     for (k, op) in c.ops.iter().enumerate() {
         // every operation uses the first one's address and sign type (it is the same Sign object)
@@ -427,8 +455,9 @@ fn case_strategy(max_pages: usize, big: bool) -> impl Strategy<Value = TransferC
         prop_oneof![4 => Just(None), 1 => (0usize..3, 0u8..4).prop_map(Some)],
         prop_oneof![4 => Just(false), 1 => Just(true)],
         prop_oneof![5 => Just(None), 1 => (0usize..40, 0u8..4).prop_map(Some)],
+        prop_oneof![7 => Just(None), 1 => (0usize..3).prop_map(Some)],
     )
-        .prop_map(|(addr, sign_type, pages, seed, verdicts, bad_ack, dup_pages, bus_error_at)| TransferCase { addr, sign_type, pages, seed, verdicts, bad_ack, if_needed_hello: None, dup_pages, bus_error_at })
+        .prop_map(|(addr, sign_type, pages, seed, verdicts, bad_ack, dup_pages, bus_error_at, in_progress_at)| TransferCase { addr, sign_type, pages, seed, verdicts, bad_ack, if_needed_hello: None, dup_pages, bus_error_at, in_progress_at, relation: 0 })
 }
 
 pub fn run(ctx: &Ctx) {
@@ -439,10 +468,10 @@ pub fn run(ctx: &Ctx) {
         let own_chunks = (crate::oracle::page::total_len(w, h) / 16) as u16;
         for (vi, v) in verdicts.iter().enumerate() {
             for addr in [0u16, 3, 0xFFFF] {
-                let c = TransferCase { addr, sign_type: t as u8, pages: None, seed: 0, verdicts: v.clone(), bad_ack: None, if_needed_hello: None, dup_pages: false, bus_error_at: None };
+                let c = TransferCase { addr, sign_type: t as u8, pages: None, seed: 0, verdicts: v.clone(), bad_ack: None, if_needed_hello: None, dup_pages: false, bus_error_at: None, in_progress_at: None, relation: 0 };
                 check_transfer(&c, st).map_err(|m| (serde_json::to_value(&c).unwrap(), m))?;
                 for n in 0..=3usize {
-                    let c = TransferCase { addr, sign_type: t as u8, pages: Some(vec![own_chunks; n]), seed: (t * 10 + vi as u64) as u64, verdicts: v.clone(), bad_ack: None, if_needed_hello: None, dup_pages: false, bus_error_at: None };
+                    let c = TransferCase { addr, sign_type: t as u8, pages: Some(vec![own_chunks; n]), seed: (t * 10 + vi as u64) as u64, verdicts: v.clone(), bad_ack: None, if_needed_hello: None, dup_pages: false, bus_error_at: None, in_progress_at: None, relation: 0 };
                     check_transfer(&c, st).map_err(|m| (serde_json::to_value(&c).unwrap(), m))?;
                     // the same transfer with the request of attempt 0 / 1 / 2 not acknowledged, in each of the four ways
                     let c = TransferCase { bad_ack: Some((vi % 3, (n + vi) as u8)), ..c };
@@ -453,17 +482,17 @@ pub fn run(ctx: &Ctx) {
         Ok(())
     });
     par_range(ctx, "configure-if-needed-hello-states", 11 * 13, |i, st| {
-        let c = TransferCase { addr: 0x0203, sign_type: (i % 11) as u8, pages: None, seed: 0, verdicts: vec![i % 3 != 0, true], bad_ack: None, if_needed_hello: Some((i / 11) as u8), dup_pages: false, bus_error_at: None };
+        let c = TransferCase { addr: 0x0203, sign_type: (i % 11) as u8, pages: None, seed: 0, verdicts: vec![i % 3 != 0, true], bad_ack: None, if_needed_hello: Some((i / 11) as u8), dup_pages: false, bus_error_at: None, in_progress_at: None, relation: 0 };
         check_transfer(&c, st).map_err(|m| (serde_json::to_value(&c).unwrap(), m))
     });
     ctx.part_done("configure-if-needed-hello-states", true, json!("configure_if_needed for 11 types x the 13 states the sign may report to the opening hello"));
     par_range(ctx, "identical-pages-and-bus-failures", 64, |i, st| {
         // the same page two / three times in a row (same id, same bytes)
-        let c = TransferCase { addr: 3, sign_type: (i % 11) as u8, pages: Some(vec![3; 2 + (i % 2) as usize]), seed: i, verdicts: vec![i % 3 != 0, true], bad_ack: None, if_needed_hello: None, dup_pages: true, bus_error_at: None };
+        let c = TransferCase { addr: 3, sign_type: (i % 11) as u8, pages: Some(vec![3; 2 + (i % 2) as usize]), seed: i, verdicts: vec![i % 3 != 0, true], bad_ack: None, if_needed_hello: None, dup_pages: true, bus_error_at: None, in_progress_at: None, relation: 0 };
         check_transfer(&c, st).map_err(|m| (serde_json::to_value(&c).unwrap(), m))?;
         // a bus failure of each kind at call index i of a two-page transfer
         for kind in 0..4u8 {
-            let c = TransferCase { addr: 0x0405, sign_type: 5, pages: Some(vec![3, 2]), seed: 9, verdicts: vec![false, true], bad_ack: None, if_needed_hello: None, dup_pages: false, bus_error_at: Some((i as usize % 24, kind)) };
+            let c = TransferCase { addr: 0x0405, sign_type: 5, pages: Some(vec![3, 2]), seed: 9, verdicts: vec![false, true], bad_ack: None, if_needed_hello: None, dup_pages: false, bus_error_at: Some((i as usize % 24, kind)), in_progress_at: None, relation: 0 };
             check_transfer(&c, st).map_err(|m| (serde_json::to_value(&c).unwrap(), m))?;
         }
         Ok(())
@@ -479,7 +508,7 @@ pub fn run(ctx: &Ctx) {
             2 => vec![1, 4096, 2],
             _ => vec![4095, 4096],
         };
-        let c = TransferCase { addr: 0x0102, sign_type: 5, pages: Some(pages), seed: k, verdicts: vec![k % 2 == 0, true], bad_ack: None, if_needed_hello: None, dup_pages: false, bus_error_at: None };
+        let c = TransferCase { addr: 0x0102, sign_type: 5, pages: Some(pages), seed: k, verdicts: vec![k % 2 == 0, true], bad_ack: None, if_needed_hello: None, dup_pages: false, bus_error_at: None, in_progress_at: None, relation: 0 };
         check_transfer(&c, st).map_err(|m| (serde_json::to_value(&c).unwrap(), m))
     });
     ctx.part_done("offset-limit", true, json!("pages of 4096 chunks (last offset 65520), alone and next to small pages"));
@@ -488,7 +517,7 @@ pub fn run(ctx: &Ctx) {
     let long_lists: Vec<(usize, u16)> = vec![(255, 1), (256, 1), (257, 1), (300, 3), (513, 2), (1000, 1), (256, 6), (2000, 2)];
     par_range(ctx, "long-page-lists", long_lists.len() as u64 * 2, |k, st| {
         let (n, chunks) = long_lists[(k / 2) as usize];
-        let c = TransferCase { addr: 0x0011, sign_type: (k % 11) as u8, pages: Some(vec![chunks; n]), seed: 77 + k, verdicts: if k % 2 == 0 { vec![true] } else { vec![false, true] }, bad_ack: None, if_needed_hello: None, dup_pages: false, bus_error_at: None };
+        let c = TransferCase { addr: 0x0011, sign_type: (k % 11) as u8, pages: Some(vec![chunks; n]), seed: 77 + k, verdicts: if k % 2 == 0 { vec![true] } else { vec![false, true] }, bad_ack: None, if_needed_hello: None, dup_pages: false, bus_error_at: None, in_progress_at: None, relation: 0 };
         check_transfer(&c, st).map_err(|m| (serde_json::to_value(&c).unwrap(), m))?;
         st.nontrivial_enumerated(1);
         Ok(())
@@ -497,7 +526,7 @@ pub fn run(ctx: &Ctx) {
     // two-page transfer, then configure / the same pages again / other pages
     par_range(ctx, "aborted-then-next-on-one-sign", 30 * 3, |i, st| {
         let at = (i / 3) as usize;
-        let first = TransferCase { addr: 0x0021, sign_type: 2, pages: Some(vec![3, 2]), seed: 5, verdicts: vec![true], bad_ack: None, if_needed_hello: None, dup_pages: false, bus_error_at: Some((at, (i % 4) as u8)) };
+        let first = TransferCase { addr: 0x0021, sign_type: 2, pages: Some(vec![3, 2]), seed: 5, verdicts: vec![true], bad_ack: None, if_needed_hello: None, dup_pages: false, bus_error_at: Some((at, (i % 4) as u8)), in_progress_at: None, relation: 0 };
         let second = match i % 3 {
             0 => TransferCase { pages: None, bus_error_at: None, ..first.clone() },
             1 => TransferCase { bus_error_at: None, ..first.clone() },
@@ -511,12 +540,30 @@ pub fn run(ctx: &Ctx) {
     ctx.part_done("aborted-then-next-on-one-sign", true, json!("a bus failure at each of the first 30 calls of a two-page transfer, followed by configure / the same pages / other pages on the same Sign object"));
     ctx.part_done("long-page-lists", true, json!("lists of 255, 256, 257, 300, 513, 1000, 2000 pages in one send_pages call, with and without a retry"));
 
-    run_generated(ctx, "generated", ctx.tier.pick(100_000, 2_000_000), || case_strategy(6, false), |c, st| check_transfer(c, st));
+    run_generated(ctx, "generated", ctx.tier.pick(500_000, 4_000_000), || case_strategy(6, false), |c, st| check_transfer(c, st));
     run_generated(
         ctx,
         "sequences",
-        ctx.tier.pick(30_000, 600_000),
-        || proptest::collection::vec(case_strategy(4, false), 2..=4).prop_map(|ops| TransferSeq { ops }),
+        ctx.tier.pick(200_000, 1_500_000),
+        || {
+            // relation of each operation to the one before it: 0 = independent, 1 = the very same page list again,
+            // 2 = the same list with the last page replaced (same sizes), 3 = the same list plus one page
+            (proptest::collection::vec((case_strategy(4, false), prop_oneof![5 => Just(0u8), 2 => Just(1u8), 1 => Just(2u8), 1 => Just(3u8)]), 2..=4)).prop_map(|raw| {
+                let mut ops: Vec<TransferCase> = vec![];
+                for (mut op, rel) in raw {
+                    if let (Some(prev), true) = (ops.last(), rel != 0) {
+                        if let Some(prev_pages) = &prev.pages {
+                            op.seed = prev.seed;
+                            op.dup_pages = prev.dup_pages;
+                            op.pages = Some(prev_pages.clone());
+                            op.relation = rel;
+                        }
+                    }
+                    ops.push(op);
+                }
+                TransferSeq { ops }
+            })
+        },
         |c, st| check_transfer_seq(c, st),
     );
     crate::engine::with_logging(|| {
